@@ -67,7 +67,7 @@ def run():
     cases += ds
     if c.replay_path:
         ev = json.load(open(c.replay_path))["event"]
-        cases = [ev["case"]]
+        cases = [ev["meta"]["case"]]
     evs = c.run_cases([dict(k, case=copy.deepcopy(k)) for k in cases], execute)
     for e in evs:
         e["tags"] = {"case": e.pop("case")}
